@@ -12,6 +12,16 @@ use num::Float;
 use proptest::prelude::*;
 use sliding_features::View;
 
+/// positive streams in units 2^e2 far outside the i64 ratios (f64 legs of the two ratio views: both are scale-free)
+fn pos_case_e2(spec: Spec) -> impl Fn(Tier) -> BoxedStrategy<Case> + Send + Sync {
+    move |tier: Tier| {
+        let spec = spec.clone();
+        (pos_stream_grid(tier), prop_oneof![4 => Just(0i32), 1 => Just(-80i32), 1 => Just(-300i32), 1 => Just(-1040i32), 1 => Just(300i32)]).prop_map(move |(xs, e2)| Case { e2, ..Case::of(spec.clone(), xs) }).boxed()
+    }
+}
+fn pos_stream_grid(tier: Tier) -> BoxedStrategy<Vec<Rat>> {
+    (1usize..=24).prop_flat_map(move |n| gen::stream(StreamCfg::new(n).positive().scale(Rat(1, 8)).kmax(1 << 20).len(0, tier.pick(200, 300)).segs(8))).boxed()
+}
 fn pos_stream(tier: Tier) -> BoxedStrategy<Vec<Rat>> {
     (gen::dyadic_scale_wide(), 1usize..=24)
         .prop_flat_map(move |(sc, n)| gen::stream(StreamCfg::new(n).positive().scale(sc).len(0, tier.pick(200, 300)).segs(8)))
@@ -209,7 +219,7 @@ fn drawdown_check(exact: bool) -> impl Fn(&Case) -> Verdict + Send + Sync {
             let o = run_q(&spec, &h).into_iter().map(|o| o.and_then(|v| v.fin().cloned())).collect();
             (h, o)
         } else {
-            let xs = f64s(&case.xs);
+            let xs = f64s_e(&case.xs, case.e2);
             let o = run_f64(&spec, &xs).into_iter().map(|o| o.filter(|v| v.is_finite()).map(f)).collect();
             (bigs_of_f64(&xs), o)
         };
@@ -258,7 +268,7 @@ fn lnreturn_check(exact: bool) -> impl Fn(&Case) -> Verdict + Send + Sync {
                 }
             }
         } else {
-            let xs = f64s(&case.xs);
+            let xs = f64s_e(&case.xs, case.e2);
             let outs = run_f64(&spec, &xs);
             for t in 0..n {
                 if t == 0 {
@@ -314,6 +324,21 @@ fn gated_check(case: &Case) -> Verdict {
     Verdict::pass(h.len() >= 3, vec![spec.name().to_string()])
 }
 
+/// fz_single: clause (WelfordRolling Q, Drawdown Q / f64, LnReturn Q / f64, gated), positive stream
+pub fn fuzz_decode(u: &mut arbitrary::Unstructured) -> Option<(String, Case)> {
+    let which = u.int_in_range(0..=5u8).ok()?;
+    let (w, k) = (u.int_in_range(0..=2usize).ok()?, 1 + u.int_in_range(0..=8i64).ok()?);
+    let xs = crate::fuzzdec::stream(u, true, 200);
+    Some(match which {
+        0 => ("C13/WelfordRolling/batch/Q".into(), Case::of(Spec::WelfordRolling(echo()), xs)),
+        1 => ("C13/Drawdown/batch/Q".into(), Case::of(Spec::Drawdown(echo()), xs)),
+        2 => ("C13/Drawdown/batch/f64".into(), Case::of(Spec::Drawdown(echo()), xs)),
+        3 => ("C13/LnReturn/batch/Q".into(), Case::of(Spec::LnReturn(echo()), xs)),
+        4 => ("C13/LnReturn/batch/f64".into(), Case::of(Spec::LnReturn(echo()), xs)),
+        _ => ("C13/gated/Q".into(), Case { spec: Some([Spec::WelfordRolling(echo()), Spec::Drawdown(echo()), Spec::LnReturn(echo())][w].clone()), xs, ints: vec![k], a: Rat(1, 1), ..Default::default() }),
+    })
+}
+
 pub fn clauses() -> Vec<Clause> {
     let srule = "positive grammar streams of 0..200 values (thorough ..300) on dyadic grids: walks, runs up and down, plateaus, spikes, repeats (new peaks after deeper troughs, repeated equal peaks).";
     vec![
@@ -321,9 +346,9 @@ pub fn clauses() -> Vec<Clause> {
         Clause::generated("C13", "C13/WelfordRolling/long/f64", "streams of 2e3 / 2e4 / 1.4e5 (thorough up to 1e6; past 2^16 and 2^17 samples) positive values derived from a generated seed: noise, random walk with plateaus, large level with tiny spread; f64 run vs exact integer accumulators at 256 evenly spaced steps and the end; tolerances 1e-9 max|x| (mean), 1e-9 max|x|^2 (variance), 3.3e-5 max|x| (std). Non-trivial: n >= 1000.", 48, 480, |tier| (any::<u64>(), prop_oneof![Just(2_000usize), Just(20_000usize), Just(tier.pick(140_000usize, 1_000_000usize))], 0i64..3).prop_map(|(s, len, shape)| Case { spec: Some(Spec::WelfordRolling(echo())), ints: vec![(s >> 1) as i64, len as i64, shape], a: Rat(1, 1), ..Default::default() }).boxed(), welford_long).with_shard(4),
         Clause::generated("C13", "C13/rolling/long/f64", "Drawdown and LnReturn over streams of 2e3 / 1.4e5 (thorough 1e6) positive values derived from a generated seed (noise, drifting walk with plateaus, large level with tiny spread), f64 run vs integer bookkeeping of the running peak / largest relative decline (4 eps) and ln of the quotient (1e-15 relative), at every step. Non-trivial: n >= 1000 and (Drawdown) >= 2 running peaks.", 24, 240, |tier| (any::<u64>(), prop_oneof![Just(2_000usize), Just(tier.pick(140_000usize, 1_000_000usize))], 0i64..3, 0i64..2).prop_map(|(s, len, shape, which)| Case { spec: Some(if which == 0 { Spec::Drawdown(echo()) } else { Spec::LnReturn(echo()) }), ints: vec![(s >> 1) as i64, len as i64, shape, which], a: Rat(1, 1), ..Default::default() }).boxed(), dd_ln_long).with_shard(4),
         Clause::generated("C13", "C13/Drawdown/batch/Q", format!("{srule} Oracle: max_j (peak_j - x_j)/peak_j with peak_j the running maximum, every step, exact. Non-trivial: >= 2 running peaks and a decline after a new peak that followed an earlier drawdown."), 2500, 50_000, move |t| pos_stream(t).prop_map(|xs| Case::of(Spec::Drawdown(echo()), xs)).boxed(), drawdown_check(true)).with_shard(200),
-        Clause::generated("C13", "C13/Drawdown/batch/f64", format!("{srule} Same oracle on the f64 run, 4 eps."), 2500, 50_000, move |t| pos_stream(t).prop_map(|xs| Case::of(Spec::Drawdown(echo()), xs)).boxed(), drawdown_check(false)).with_shard(400),
+        Clause::generated("C13", "C13/Drawdown/batch/f64", format!("{srule} Same oracle on the f64 run, 4 eps. Half of the cases multiply every value by 2^e2, e2 in {{-80, -300, -1040, 300}} (units far below epsilon, down to subnormal inputs, and far above 2^53): the view is scale-free."), 2500, 50_000, pos_case_e2(Spec::Drawdown(echo())), drawdown_check(false)).with_shard(400),
         Clause::generated("C13", "C13/gated/Q", format!("{srule} WelfordRolling, Drawdown and LnReturn over a leaf that withholds its first k in 1..9 inputs: the answer does not change during the withheld updates and afterwards equals, step by step, the same view over Echo fed only the delivered values (whose agreement with the batch definition is the other clauses' subject)."), 1500, 20_000, move |t| (pos_stream(t), 0usize..3, 1i64..=9).prop_map(|(xs, w, k)| Case { spec: Some([Spec::WelfordRolling(echo()), Spec::Drawdown(echo()), Spec::LnReturn(echo())][w].clone()), xs, ints: vec![k], a: Rat(1, 1), ..Default::default() }).boxed(), gated_check).with_shard(100),
         Clause::generated("C13", "C13/LnReturn/batch/Q", format!("{srule} Oracle: nothing for the first value, then ln(x_t/x_(t-1)) (exact scalar's ln). Non-trivial: n >= 3."), 1200, 20_000, move |t| pos_stream(t).prop_map(|xs| Case::of(Spec::LnReturn(echo()), xs)).boxed(), lnreturn_check(true)).with_shard(100),
-        Clause::generated("C13", "C13/LnReturn/batch/f64", format!("{srule} f64 run vs the exact ln of the exact quotient, 1e-15 relative."), 1200, 20_000, move |t| pos_stream(t).prop_map(|xs| Case::of(Spec::LnReturn(echo()), xs)).boxed(), lnreturn_check(false)).with_shard(100),
+        Clause::generated("C13", "C13/LnReturn/batch/f64", format!("{srule} f64 run vs the exact ln of the exact quotient, 1e-15 relative. Half of the cases multiply every value by 2^e2, e2 in {{-80, -300, -1040, 300}}."), 1200, 20_000, pos_case_e2(Spec::LnReturn(echo())), lnreturn_check(false)).with_shard(100),
     ]
 }
